@@ -14,8 +14,10 @@ from harness import engine_explore as ee
 
 
 def gen_user_case(rng, tier, cyclic=False):
-    hub = (not cyclic) and rng.random() < 0.3
-    spec = plans.gen_hub_spec(rng) if hub else plans.gen_spec(rng, nmax=8 if tier == "quick" else 14, cyclic=cyclic)
+    shape = rng.random() if not cyclic else 1.0
+    hub = shape < 0.42
+    spec = (plans.gen_hub_spec(rng) if shape < 0.3 else plans.gen_litchain_spec(rng) if hub
+            else plans.gen_spec(rng, nmax=8 if tier == "quick" else 14, cyclic=cyclic))
     ids = [nd["id"] for nd in spec["nodes"]]
     calls = [nd["id"] for nd in spec["nodes"] if nd["kind"] == "call"]
     k = rng.choice([0, 1, 2, 2, 3, 4])
